@@ -222,7 +222,46 @@ def moved_stream(ctx, n):
             ctx.disagree("C15:moved:components", desc, [e.tolist() for e in exp], [np.round(x, 6).tolist() for x in got], replay=[desc])
 
 
+def touching_stream(ctx, n):
+    """two proper conics that touch in one point and cross in two others: C2 = C1 + t l^T + l t^T with t the tangent of C1 at a
+    point p of C1 and l a secant; the pencil cubic has an (exactly representable) double root.  Common points: p, and C1 ∩ l"""
+    import geometer as g
+    rng = ctx.rng
+    base = [np.array([[1.0, 0, 0], [0, 0, -0.5], [0, -0.5, 0]]),          # y = x^2
+            np.array([[0, 0.5, 0], [0.5, 0, 0], [0, 0, -1.0]]),            # x y = 1
+            np.array([[1.0, 0, 0], [0, 1.0, 0], [0, 0, -25.0]])]            # x^2 + y^2 = 25
+    pts = [[(0, 0), (1, 1), (-2, 4), (2, 4)], [(1, 1), (2, 0.5), (-1, -1), (0.5, 2)], [(3, 4), (-4, 3), (0, 5), (5, 0)]]
+    for k in range(n):
+        i = rng.randrange(3)
+        A = base[i]
+        p = np.array(list(pts[i][rng.randrange(4)]) + [1.0])
+        t = A @ p
+        q1, q2 = (np.array(list(x) + [1.0]) for x in rng.sample([x for x in pts[i] if not np.allclose(x, p[:2])], 2))
+        l = np.cross(q1, q2)
+        c = rng.choice([0.25, 0.5, -0.5, 1.0])
+        B = A + c * (np.outer(t, l) + np.outer(l, t)) / 2
+        if abs(np.linalg.det(B)) < 1e-6:
+            continue
+        desc = f"touching conics base={i} p={p.tolist()} secant through {q1.tolist()} {q2.tolist()} c={c}"
+        ctx.case(desc)
+        ctx.count("touching")
+        for order in ("ab", "ba"):
+            c1, c2 = (g.Conic(A), g.Conic(B)) if order == "ab" else (g.Conic(B), g.Conic(A))
+            r = call_impl(lambda: c1.intersect(c2))
+            if r[0] != "ok":
+                ctx.disagree(f"C15:touching:error:{r[1]}", desc, "common points", r[1:3], replay=[desc])
+                break
+            got = [np.asarray(x.array, dtype=complex) for x in r[1]]
+            res = lambda M, x: abs(x @ M @ x) / (np.linalg.norm(x) ** 2 * np.linalg.norm(M))
+            on_both = all(res(A, x) < 1e-6 and res(B, x) < 1e-6 for x in got)
+            found = all(any(proj_close_nn(e, x, 1e-5) for x in got) for e in (p, q1, q2))
+            if not on_both or not found or len(got) > 4:
+                ctx.disagree("C15:touching:common-points", desc + f" order={order}", [p.tolist(), q1.tolist(), q2.tolist()], [np.round(x, 5).tolist() for x in got], replay=[desc])
+                break
+
+
 def correspondence(ctx):
+    touching_stream(ctx, ctx.budget(30, 300))
     moved_stream(ctx, ctx.budget(40, 400))
     lines_stream(ctx, ctx.budget(300, 0))
     planes_stream(ctx, ctx.budget(150, 2000))
